@@ -58,6 +58,31 @@ Theorem C15_depth_identity :
 Proof. exact depth_identity. Qed.
 Print Assumptions C15_depth_identity.
 
+(* the key has to be the whole recorded pc slice: a key cut to 32 pcs makes two
+   different stacks of equal length share one counter (any symboliser, any name) *)
+Theorem C15_bounded_key_refuted :
+  forall (symb : list N -> list frame) (name : bytes),
+  let p := repeat 7 32 ++ [1] in
+  let q := repeat 7 32 ++ [2] in
+  p <> q /\ length p = length q /\
+  let hits := snd (run symb name [] (map (firstn 32) [p; q])) in
+  nth_error hits 0 = nth_error hits 1.
+Proof. exact bounded_key_refuted. Qed.
+Print Assumptions C15_bounded_key_refuted.
+
+(* the 4096-byte limit is a limit of the ENCODED name only: 100 frames of one
+   package encode within the limit, round-trip, and expand to more than 4096
+   bytes - readers of the expanded name must not bound it. *)
+Theorem C15_expanded_name_exceeds_limit :
+  let fs := repeat long_pkg_frame 100 in
+  Forall (fun f => fn_roundtrips (fr_func f) = true) fs /\ prefix_ok [115; 116] = true /\
+  is_truncated [115; 116] fs = false /\
+  (N.of_nat (length (encode_frames [115; 116] fs)) <= 4096) /\
+  decode_stack (encode_frames [115; 116] fs) = render_plain [115; 116] fs /\
+  4096 < N.of_nat (length (decode_stack (encode_frames [115; 116] fs))).
+Proof. exact expanded_name_exceeds_limit. Qed.
+Print Assumptions C15_expanded_name_exceeds_limit.
+
 (* ---- ReadStack (countertest.ReadStackCounter) reports a counter under the
    EXPANDED name, whatever the state of the counter file: for every counter of
    the cache, DecodeStack of its name is the uncompressed rendering of its own
